@@ -155,6 +155,9 @@ def indeterminates(pre, sigs, params):
     return list(sigs) + (list(params) if pre[1] == "function" else [])
 
 
+AUDIT = {"arrivals": 0, "decided": 0, "bad": []}
+
+
 def oracle_case(ctx, orng, x, src, curve, kv, kd, check_vals, check_degs):
     """The violation-search oracle on one lifted case: interpreter for value claims, finite differences for degree claims."""
     failing = []
@@ -170,15 +173,23 @@ def oracle_case(ctx, orng, x, src, curve, kv, kd, check_vals, check_degs):
                             "spec": "evaluates to %s" % (hex(val) if isinstance(val, int) else val), "kind": "value"})
     if check_degs:
         ind = indeterminates(x[1], sigs, params)
+        idoms = [None if d == "-" else int(d) for d in x[3][1:]] if len(x) > 3 else None
+        audit = AUDIT
         if ind:
-            for trial in range(3 if ctx.tier == "quick" else 5):
+            ntr = 5 if ctx.tier == "quick" else 8
+            for trial in range(ntr):
                 if trial == 0:      # the line 0, 1, 2, 3, 4 (small values reach array indices)
                     base = {nm: 0 for nm in names}
+                    direction = {nm: 1 for nm in ind}
+                elif trial in (1, 2):
+                    # small lines: the indeterminates run through 0..4 (so `signal == small literal` flips along the
+                    # line) while the other names (template parameters) take small values (so `n == 3` holds sometimes)
+                    base = {nm: (0 if nm in ind else orng.randrange(0, 6)) for nm in names}
                     direction = {nm: 1 for nm in ind}
                 else:
                     base = orng.choice(vals)
                     direction = {nm: orng.randrange(1, p) for nm in ind}
-                bad, ex, diverged = irsem.check_degrees(x[1], x[2], p, base, direction, ind)
+                bad, ex, diverged = irsem.check_degrees(x[1], x[2], p, base, direction, ind, idoms=idoms, audit=audit)
                 exercised_d += ex
                 for (k, cd, vs) in bad[:1]:
                     cls = irsem.node_class(x[2], k[0])
@@ -192,6 +203,13 @@ def oracle_case(ctx, orng, x, src, curve, kv, kd, check_vals, check_degs):
                                     "kind": "degree"})
                 if bad:
                     break
+    if AUDIT["bad"]:
+        blk, ctxk, truths, e1, e2 = AUDIT["bad"].pop()
+        AUDIT["bad"].clear()
+        failing.append({"input": src, "curve": curve, "budget": [kv, kd], "classes": [], "kind": "degree",
+                        "impl": "two runs arrive at join block %s (context %s) along different edges (%s, %s)" % (blk, ctxk, e1, e2),
+                        "spec": "Spec.DegSem.decides: the deciding conditions %s had the same truth values in both runs, so the edge must be the same "
+                                "(the control-dependence rule of the degree semantics does not cover this graph)" % (list(truths),)})
     return failing, exercised_v, exercised_d
 
 
@@ -248,7 +266,7 @@ def run(ctx, proofs, budgets, check_vals=True, check_degs=True, n_quick=500, n_t
     if check_degs:
         dvalid = dvalidate_all(M, progs, impl, budgets)
         unjustified += [{"input": progs[i][1], "curve": progs[i][0], "budget": [kv, kd], "validator": "DegJustify.djust_cfg", "answer": o}
-                        for (i, kv, kd), o in dvalid.items() if o == "(unjustified)"]
+                        for (i, kv, kd), o in dvalid.items() if o != "(justified)"]
     ccmodel = constcond_all(M, progs, impl, budgets) if check_vals else {}
     # the hypotheses of the budget theorems (C20_mirror_validated_at_every_budget, C20_propagate_completes), evaluated on
     # the graph the implementation hands to propagation (budget 0/0: nothing has run yet)
@@ -402,8 +420,16 @@ def verdict(ctx, proofs, r, kinds, known_classes, extra_cov=None):
         cov["graphs_meeting_the_hypotheses_of_the_budget_theorems"] = r["hyp"]
     if r.get("escalated"):
         cov["escalated_search_after_broken_correspondence"] = r["escalated"]
+    if "degree" in kinds:
+        cov["control_dependence_audit"] = {"join_arrivals_observed": AUDIT["arrivals"], "with_an_evaluated_deciding_condition": AUDIT["decided"],
+                                           "rule": "concrete runs arriving at a join in the same context with equal truth values of all conditions named by "
+                                                   "Spec.DegSem.decides must arrive along the same edge"}
     if "finding" in kinds:
         cov["constant_condition_reports_compared_with_Model_ConstCond"] = r["cc_seen"]
+        if r["cc_seen"]["reports"] < 10 or not r["cc_seen"]["always_true"] or not r["cc_seen"]["always_false"]:
+            ctx.violation("degenerate exploration: only %d constant-condition reports were produced (always true: %d, always false: %d); the comparison of the "
+                          "CS0009 findings with Model.ConstCond is not exercised" % (r["cc_seen"]["reports"], r["cc_seen"]["always_true"], r["cc_seen"]["always_false"]),
+                          {"broken": "generator coverage of the constant-condition finding"}, no_input=True)
     if extra_cov:
         cov.update(extra_cov)
     ctx.coverage.update(cov)
